@@ -99,6 +99,16 @@ impl<'a> Serializer for &'a mut Rec {
         if self.reject {
             return Err(SErr(7));
         }
+        // the pointee's own serialization is running: another writer (or the pointee's Serialize
+        // impl itself, re-entrantly) replaces the stored value right now
+        let re = unsafe { REENTER };
+        if !re.is_null() {
+            unsafe { REENTER = core::ptr::null() };
+            let s: &S = unsafe { &*re };
+            s.store(fresh_handle(unsafe { REENTER_NEW }));
+            let l = model::ledger();
+            vassert!(l.alive[v as usize] && l.destroyed[v as usize] == 0 && l.cnt[v as usize] >= 1, "value_stays_alive_while_it_is_being_serialized");
+        }
         self.push(Tok::U64(v));
         Ok(())
     }
@@ -245,6 +255,39 @@ pub(crate) fn c20_serialize_transparent() {
     mem::forget(s);
     mem::forget(a);
     vcover!("c20_serialize_transparent_end");
+}
+
+pub(crate) static mut REENTER: *const S = core::ptr::null();
+pub(crate) static mut REENTER_NEW: usize = 0;
+
+// The value being serialized is protected for the whole duration of the pointee's `serialize`
+// (C20: the container serializes as the pointer it held – also when that pointer is replaced and
+// released by a writer while the pointee's serialization is still running; C01).
+// @harness name=c20_serialize_protected props=C20,C01 tier=quick flavour=nostd timeout=1800 cfg=feature="serde" fn=ArcSwapAny::serialize
+#[cfg_attr(kani, kani::proof)]
+#[cfg_attr(kani, kani::stub(crate::debt::Debt::pay_all, crate::debt::verif_h::pay_all_stub))]
+#[cfg_attr(kani, kani::stub(crate::debt::LocalNode::with, crate::debt::verif_h::list_h::with_static))]
+#[cfg_attr(kani, kani::stub(crate::debt::Node::get, crate::debt::verif_h::list_h::node_get_unexpected))]
+#[cfg_attr(kani, kani::unwind(12))]
+pub(crate) fn c20_serialize_protected() {
+    crate::debt::verif_h::list_h::setup_thread_node();
+    hy::fresh_ledger();
+    let o = 1usize;
+    // the container holds the ONLY reference to o
+    model::create(o, 1);
+    let s: S = ArcSwapAny::with_strategy(TP::adopt(o), hy::strategy::<DefaultConfig>());
+    unsafe {
+        REENTER = &s as *const S;
+        REENTER_NEW = 2;
+    }
+    let t = tokens_of(&s);
+    vassert!(unsafe { REENTER.is_null() }, "the_store_during_serialization_happened");
+    vassert!(t.n == 1 && t.toks[0] == Tok::U64(o as u64), "container_serializes_as_the_pointer_it_held");
+    let l = model::ledger();
+    vassert!(l.cnt[o] == 0 && l.destroyed[o] == 1, "replaced_value_released_exactly_once_after_serialization");
+    vassert!(crate::verif_h::api::stored_addr(&s) == model::addr(2), "the_store_took_effect");
+    mem::forget(s);
+    vcover!("c20_serialize_protected_end");
 }
 
 // @harness name=c20_serialize_option props=C20 tier=quick flavour=nostd timeout=1800 cfg=feature="serde" fn=ArcSwapAny::serialize
